@@ -118,6 +118,9 @@ fn print_family(dir: &Path, nfiles: usize) -> Vec<PathBuf> {
             }
             s.push_str(&format!("  4: optional Kind{} kind,\n  5: optional map<string, list<i64>> m,\n}}\n", i));
         }
+        // the same names in every file: several modules (and, from the 7th file on, the same
+        // module twice) declare them, which exercises duplicate-name numbering and split file names
+        s.push_str("struct Common { 1: optional string id, 2: optional Kind kind }\nenum Kind { X = 0, Y = 1 }\nstruct Item { 1: optional Common common, 2: optional list<Common> more }\n");
         s.push_str(&format!("union U{} {{ 1: string a, 2: i64 b, 3: FooBar{} c }}\n", i, i));
         s.push_str(&format!("exception E{} {{ 1: string message }}\n", i));
         s.push_str(&format!("const string NAME{} = \"fam{}\"\nconst map<string, i32> TABLE{} = {{\"a\": 1, \"b\": 2, \"c\": 3}}\n", i, i, i));
@@ -206,7 +209,7 @@ fn corpora(scratch: &Path, tier_thorough: bool) -> Vec<Corpus> {
     v.push(Corpus { name: "repo_protobuf_all".into(), source: "protobuf", include: Some(td.join("protobuf")), entries: pb_files, modes: vec!["single", "split"] });
     // printed family
     let fam_dir = scratch.join("family");
-    let n = if tier_thorough { 9 } else { 6 };
+    let n = if tier_thorough { 9 } else { 7 };
     let fam = print_family(&fam_dir, n);
     v.push(Corpus { name: "family_all_entries".into(), source: "thrift", include: Some(fam_dir.clone()), entries: fam.clone(), modes: vec!["single", "split", "workspace", "workspace_split"] });
     let pfam_dir = scratch.join("pfamily");
@@ -412,7 +415,7 @@ fn run(args: &[String]) {
     }
 
     // 2. exploration
-    let per_pair = if thorough { 400 } else { 14 };
+    let per_pair = if thorough { 400 } else { 10 };
     let mut st = seed ^ 0xC17;
     let mut jobs: Vec<RunCfg> = vec![];
     for (ci, c) in cs.iter().enumerate() {
